@@ -5,32 +5,41 @@ Import ListNotations.
 Open Scope string_scope.
 Set Implicit Arguments.
 
-Definition ol (o : option (list Qc)) : val := match o with Some l => vq l | None => VPanic end.
-Definition ri16 : rd Qc nat := rd_map qc_nat (@rd_s Qc).
-Definition of_l (X : Type) (f : list Qc -> option X) (g : X -> list Qc) (l : list Qc) : val :=
-  match f l with Some x => vq (g x) | None => VBad end.
+Section G.
+  Variable F : Type.
+  Variable toNat : F -> nat.
 
-Definition tab_c16 : list (string * (list Qc -> val)) := [
-  ("v1_into_array", run1 (@rd_v1 Qc) (fun v => vq (v1_list v))); ("v2_into_array", run1 (@rd_v2 Qc) (fun v => vq (v2_list v)));
-  ("v3_into_array", run1 (@rd_v3 Qc) (fun v => vq (v3_list v))); ("v4_into_array", run1 (@rd_v4 Qc) (fun v => vq (v4_list v)));
-  ("p3_into_array", run1 (@rd_p3 Qc) (fun v => vq (p3_list v)));
-  ("quat_into_array", run1 (@rd_quat Qc) (fun q => vq (quat_list q)));
-  ("m2_flat", run1 (@rd_m2 Qc) (fun m => vq (m2_list m))); ("m3_flat", run1 (@rd_m3 Qc) (fun m => vq (m3_list m)));
-  ("m4_flat", run1 (@rd_m4 Qc) (fun m => vq (m4_list m)));
-  ("v2_from_array", of_l (@v2_of_list Qc) (@v2_list Qc)); ("v3_from_array", of_l (@v3_of_list Qc) (@v3_list Qc));
-  ("v4_from_array", of_l (@v4_of_list Qc) (@v4_list Qc)); ("p3_from_array", of_l (@p3_of_list Qc) (@p3_list Qc));
-  ("quat_from_array", of_l (@quat_of_list Qc) (@quat_sxyz Qc));
-  ("m3_from_nested", of_l (@m3_of_list Qc) (@m3_list Qc)); ("m4_from_nested", of_l (@m4_of_list Qc) (@m4_list Qc));
-  ("v4_index", run2 (@rd_v4 Qc) ri16 (fun v i => pn os (idx (v4_list v) i)));
-  ("quat_index", run2 (@rd_quat Qc) ri16 (fun q i => pn os (idx (quat_list q) i)));
-  ("v4_slice", run3 (@rd_v4 Qc) ri16 ri16 (fun v a b => ol (slice (v4_list v) a b)));
-  ("v4_swap", run3 (@rd_v4 Qc) ri16 ri16 (fun v i j => ol (swap_list (v4_list v) i j)));
-  ("v4_set", run3 (@rd_v4 Qc) ri16 (@rd_s Qc) (fun v i a => ol (set_nth (v4_list v) i a)));
-  ("v4_truncate_n", run2 (@rd_v4 Qc) ri16 (fun v n => pn ov3 (v4_truncate_n v n)));
-  ("v3_extend", run2 (@rd_v3 Qc) (@rd_s Qc) (fun v w => ov4 (v3_extend v w)));
-  ("v4_truncate", run1 (@rd_v4 Qc) (fun v => ov3 (v4_truncate v)));
-  ("v2_extend", run2 (@rd_v2 Qc) (@rd_s Qc) (fun v w => ov3 (v2_extend v w)));
-  ("v3_truncate", run1 (@rd_v3 Qc) (fun v => ov2 (v3_truncate v)))
+
+Definition ol (o : option (list F)) : gval F := match o with Some l => GQ l | None => GPanic end.
+Definition ri16 : rd F nat := rd_map toNat (@rd_s F).
+Definition of_l (X : Type) (f : list F -> option X) (g : X -> list F) (l : list F) : gval F :=
+  match f l with Some x => GQ (g x) | None => GBad end.
+
+Definition gtab_c16 : list (string * (list F -> gval F)) := [
+  ("v1_into_array", grun1 (@rd_v1 F) (fun v => GQ (v1_list v))); ("v2_into_array", grun1 (@rd_v2 F) (fun v => GQ (v2_list v)));
+  ("v3_into_array", grun1 (@rd_v3 F) (fun v => GQ (v3_list v))); ("v4_into_array", grun1 (@rd_v4 F) (fun v => GQ (v4_list v)));
+  ("p3_into_array", grun1 (@rd_p3 F) (fun v => GQ (p3_list v)));
+  ("quat_into_array", grun1 (@rd_quat F) (fun q => GQ (quat_list q)));
+  ("m2_flat", grun1 (@rd_m2 F) (fun m => GQ (m2_list m))); ("m3_flat", grun1 (@rd_m3 F) (fun m => GQ (m3_list m)));
+  ("m4_flat", grun1 (@rd_m4 F) (fun m => GQ (m4_list m)));
+  ("v2_from_array", of_l (@v2_of_list F) (@v2_list F)); ("v3_from_array", of_l (@v3_of_list F) (@v3_list F));
+  ("v4_from_array", of_l (@v4_of_list F) (@v4_list F)); ("p3_from_array", of_l (@p3_of_list F) (@p3_list F));
+  ("quat_from_array", of_l (@quat_of_list F) (@quat_sxyz F));
+  ("m3_from_nested", of_l (@m3_of_list F) (@m3_list F)); ("m4_from_nested", of_l (@m4_of_list F) (@m4_list F));
+  ("v4_index", grun2 (@rd_v4 F) ri16 (fun v i => gpn gs (idx (v4_list v) i)));
+  ("quat_index", grun2 (@rd_quat F) ri16 (fun q i => gpn gs (idx (quat_list q) i)));
+  ("v4_slice", grun3 (@rd_v4 F) ri16 ri16 (fun v a b => ol (slice (v4_list v) a b)));
+  ("v4_swap", grun3 (@rd_v4 F) ri16 ri16 (fun v i j => ol (swap_list (v4_list v) i j)));
+  ("v4_set", grun3 (@rd_v4 F) ri16 (@rd_s F) (fun v i a => ol (set_nth (v4_list v) i a)));
+  ("v4_truncate_n", grun2 (@rd_v4 F) ri16 (fun v n => gpn gv3 (v4_truncate_n v n)));
+  ("v3_extend", grun2 (@rd_v3 F) (@rd_s F) (fun v w => gv4 (v3_extend v w)));
+  ("v4_truncate", grun1 (@rd_v4 F) (fun v => gv3 (v4_truncate v)));
+  ("v2_extend", grun2 (@rd_v2 F) (@rd_s F) (fun v w => gv3 (v2_extend v w)));
+  ("v3_truncate", grun1 (@rd_v3 F) (fun v => gv2 (v3_truncate v)))
 ].
+End G.
+
+Definition tab_c16 : list (string * (list Qc -> val)) := qtab (gtab_c16 qc_nat).
+
 Definition run_c16 : runner := fun f o args =>
   match dispatch tab_c16 f with Some h => h args | None => VBad end.
